@@ -355,6 +355,19 @@ def rich_extras():
             F(113, pq.CT_LIST, L(pq.CT_STRUCT, [T([F(3, pq.CT_DOUBLE, -0.0)]), T([])])),
             F(114, pq.CT_LIST, L(pq.CT_LIST, [L(pq.CT_I32, [1, 2]), L(pq.CT_I32, [])])),
             F(115, pq.CT_STRUCT, deep),
+            # non-empty containers of every element / key / value type (a bool ELEMENT occupies a byte, a bool FIELD none)
+            F(116, pq.CT_MAP, M(pq.CT_BINARY, pq.CT_TRUE, [(b"abc", True), (b"xy", False)])),
+            F(117, pq.CT_MAP, M(pq.CT_TRUE, pq.CT_BINARY, [(True, b"t"), (False, b"")])),
+            F(118, pq.CT_MAP, M(pq.CT_BYTE, pq.CT_I16, [(1, -2), (3, 4)])),
+            F(119, pq.CT_MAP, M(pq.CT_I64, pq.CT_DOUBLE, [(2 ** 40, 1.5)])),
+            F(120, pq.CT_MAP, M(pq.CT_I32, pq.CT_LIST, [(7, L(pq.CT_TRUE, [False, True]))])),
+            F(121, pq.CT_MAP, M(pq.CT_I16, pq.CT_MAP, [(1, M(pq.CT_BINARY, pq.CT_TRUE, [(b"q", True)]))])),
+            F(122, pq.CT_LIST, L(pq.CT_BYTE, [1, 2, 255])), F(123, pq.CT_LIST, L(pq.CT_I16, [-1, 300])),
+            F(124, pq.CT_LIST, L(pq.CT_DOUBLE, [0.0, -1.25])), F(125, pq.CT_LIST, L(pq.CT_BINARY, [b"", b"xyz"])),
+            F(126, pq.CT_SET, L(pq.CT_TRUE, [True, True, False], is_set=True)), F(127, pq.CT_SET, L(pq.CT_BINARY, [b"s"], is_set=True)),
+            F(128, pq.CT_LIST, L(pq.CT_MAP, [M(pq.CT_I32, pq.CT_TRUE, [(1, False)]), M(pq.CT_I32, pq.CT_TRUE, [])])),
+            F(129, pq.CT_LIST, L(pq.CT_STRUCT, [T([F(1, pq.CT_MAP, M(pq.CT_BINARY, pq.CT_TRUE, [(b"z", False)])), F(2, pq.CT_TRUE, True)])])),
+            F(130, pq.CT_LIST, L(pq.CT_I64, list(range(20)), long_form=True)),
             F(2000, pq.CT_MAP, M(pq.CT_BINARY, pq.CT_I32, [(b"k", 1)])), F(30000, pq.CT_I16, 1)]
 
 
@@ -700,7 +713,7 @@ def judge(case, d):
                 if not failed:
                     out.append(("accepted", f"{where}: unsupported feature accepted: " +
                                 ("values equal the stored ones" if exact else
-                                 f"WRONG DATA delivered with status OK: defs {ch.defs[:12]} / stored {defs[:12]}, values {[v.hex() for v in ch.values[:4]]} / stored {[v.hex() for v in vals[:4]]}")))
+                                 f"WRONG DATA delivered with status OK: defs {ch.defs[:12]} / stored {defs[:12]}, values {[hx(v) for v in ch.values[:4]]} / stored {[v.hex() for v in vals[:4]]}")))
                 elif not clean_fail:
                     out.append(("wrong_before_error", f"{where}: data delivered before the error differs from the stored data"))
             elif exact:
@@ -720,7 +733,7 @@ def judge(case, d):
                 else:
                     k = next((i for i, (a, b) in enumerate(zip(ch.values, vals)) if a != b), min(len(ch.values), len(vals)))
                     det = (f"values differ (first at {k} of {len(vals)}, got {len(ch.values)}): got "
-                           f"{[v.hex() for v in ch.values[k:k + 3]]} stored {[v.hex() for v in vals[k:k + 3]]}")
+                           f"{[hx(v) for v in ch.values[k:k + 3]]} stored {[v.hex() for v in vals[k:k + 3]]}")
                 out.append((what, f"{where}: {det}"))
     return out
 
@@ -818,7 +831,10 @@ def run_files(rep, cases, rng, tier, stats):
 def _judge_slice(rep, cases, owners, dumps, stats, results, nviol):
     for (k, mode, batch), d in zip(owners, dumps):
         c = cases[k]
-        probs = judge(c, d)
+        try:
+            probs = judge(c, d)
+        except Exception as e:      # output the comparison cannot interpret is a violation of its own, with the case
+            probs = [("uninterpretable", f"the driver's output could not be compared ({e!r}); first lines: {d.raw[:6]}")]
         fam = stats["families"].setdefault(c.family, {"files": 0, "reads": 0, "problems": 0, "chunks_ok": 0, "chunks_err": 0, "open_refused": 0})
         fam["reads"] += 1
         if not d.opened:
@@ -1020,7 +1036,7 @@ def run_model_tie(rep, cases, results, rng, tier, stats):
             agree += 1
         else:
             rep.tie_broken(f"[{case.label}] rg {r} col {c}: ForeignModel.decode_chunk says {o[:200]} but carquet ends {ch.end} with "
-                           f"defs {ch.defs[:10]} reps {ch.reps[:10]} values {[v.hex() for v in ch.values[:3]]}", line[:400])
+                           f"defs {ch.defs[:10]} reps {ch.reps[:10]} values {[hx(v) for v in ch.values[:3]]}", line[:400])
     stats["model_agree"] = agree
     stats["model_outcomes"] = kinds
 
